@@ -112,7 +112,16 @@ func runC19(c *Ctx, r *Report) {
 		fname := ssaFuncName(fn)
 		// the Constant(name) test dominates SetNoChecks' block's predecessors: SetNoChecks not reachable when check is skipped
 		for _, sc := range callsIn(fn, setNoChecks) {
-			bad := mustPassFromEntry(fn, func(in ssa.Instruction) bool { return isCallTo(in, constantFn) }, func(in ssa.Instruction) bool { return in == sc.(ssa.Instruction) })
+			bad := mustPassFromEntry(fn, func(in ssa.Instruction) bool {
+				if isCallTo(in, constantFn) {
+					return true
+				}
+				// a helper that answers "is an already bound constant" and tests Constant(name) on every path
+				if hc, ok := in.(*ssa.Call); ok {
+					return c.boundConstantGuard(hc, fn.Params[1], constantFn, c.Fn("object", "Environment.Get"))
+				}
+				return false
+			}, func(in ssa.Instruction) bool { return in == sc.(ssa.Instruction) })
 			if bad != nil {
 				r.Fail("C19.R2", fname, "every path to SetNoChecks tests Constant(name)", c.Pos(sc.Pos()), "SetNoChecks is reachable without the constant test", c.tracePath(bad)...)
 			} else {
@@ -166,6 +175,15 @@ func runC19(c *Ctx, r *Report) {
 						walk(b.Succs[tEdge], trail) // found bound; "not bound yet" is the legitimate way
 						_ = fEdge
 						return
+					}
+					// the boolean result of a helper that is true exactly on "constant name and bound"
+					if ex, ok := cond.(*ssa.Extract); ok {
+						if hc, ok := ex.Tuple.(*ssa.Call); ok && c.boundConstantGuard(hc, fn.Params[1], constantFn, getFn) {
+							if bt, ok := ex.Type().Underlying().(*types.Basic); ok && bt.Kind() == types.Bool {
+								walk(b.Succs[tEdge], trail)
+								return
+							}
+						}
 					}
 				}
 				for _, s := range b.Succs {
@@ -315,4 +333,73 @@ func init() {
 		assume:  []string{"object.Constant implements the documented all-upper-case definition (its body is not re-verified beyond being the function tested)", "deleting a constant with del() is allowed by the property"},
 		run:     runC19,
 	})
+}
+
+// boundConstantGuard: hc calls a module helper with the name and the helper's boolean result is false only
+// where Constant(name) was found false or the lookup of the name found nothing (so: true whenever the name is
+// a constant that is already bound); the helper tests Constant(name) on every path.
+func (c *Ctx) boundConstantGuard(hc *ssa.Call, name ssa.Value, constantFn, getFn *types.Func) bool {
+	callee := hc.Common().StaticCallee()
+	if callee == nil || !isModuleSSA(callee) || callee.Blocks == nil {
+		return false
+	}
+	pi := -1
+	for i, a := range hc.Common().Args {
+		if a == name && i < len(callee.Params) {
+			pi = i
+		}
+	}
+	if pi < 0 {
+		return false
+	}
+	p := callee.Params[pi]
+	res := callee.Signature.Results()
+	bi := -1
+	for i := 0; i < res.Len(); i++ {
+		if bt, ok := res.At(i).Type().Underlying().(*types.Basic); ok && bt.Kind() == types.Bool {
+			bi = i
+		}
+	}
+	if bi < 0 {
+		return false
+	}
+	if mustPassFromEntry(callee, func(in ssa.Instruction) bool {
+		call, ok := in.(*ssa.Call)
+		return ok && isCallTo(call, constantFn) && call.Common().Args[0] == ssa.Value(p)
+	}, isReturn) != nil {
+		return false
+	}
+	for _, b := range callee.Blocks {
+		ret, ok := b.Instrs[len(b.Instrs)-1].(*ssa.Return)
+		if !ok {
+			continue
+		}
+		k, isK := ret.Results[bi].(*ssa.Const)
+		if !isK || k.Value == nil {
+			return false
+		}
+		if k.Value.ExactString() == "true" {
+			continue
+		}
+		// a `false` return: on the not-a-constant edge or on the not-found edge
+		okEdge := false
+		for _, cc := range controlling(b) {
+			cond, edge := cc.Cond, cc.Edge
+			if u, ok := cond.(*ssa.UnOp); ok && u.Op == token.NOT {
+				cond, edge = u.X, 1-edge
+			}
+			if call, ok := cond.(*ssa.Call); ok && isCallTo(call, constantFn) && call.Common().Args[0] == ssa.Value(p) && edge == 1 {
+				okEdge = true
+			}
+			if ex, ok := cond.(*ssa.Extract); ok && ex.Index == 1 && edge == 1 {
+				if gc, ok := ex.Tuple.(*ssa.Call); ok && isCallTo(gc, getFn) && len(gc.Common().Args) >= 2 && gc.Common().Args[1] == ssa.Value(p) {
+					okEdge = true
+				}
+			}
+		}
+		if !okEdge {
+			return false
+		}
+	}
+	return true
 }
